@@ -1,0 +1,42 @@
+//go:build verif
+
+package offset
+
+// Contracts for the verification harness under /verif (comment-only file).
+//
+// C07, generic saver: the temporary file replaces the previous one only after it
+// was created, written by the callback and synced without error.
+
+//@ func (*Offset).saveToTmp
+//@   ghost created bool = false
+//@   ghost saved bool = false
+//@   ghost synced bool = false
+//@   ensures result == nil ==> created && saved && synced
+//@   callee Create(name) (f, err)
+//@     pure
+//@     set created := err == nil
+//@   callee Save(w) (err)
+//@     requires created
+//@     pure
+//@     set saved := err == nil
+//@   callee Sync() (err)
+//@     requires saved
+//@     pure
+//@     set synced := err == nil
+//@   callee getTmpPath()
+//@     pure
+//@   callee Close()
+//@     pure
+
+//@ func (*Offset).Save
+//@   ghost ok bool = false
+//@   ghost nrename int = 0
+//@   ensures nrename <= 1 && (nrename == 1 ==> ok)
+//@   callee saveToTmp() (err)
+//@     set ok := err == nil
+//@   callee Rename(a, b) (err)
+//@     requires ok && nrename == 0
+//@     pure
+//@     set nrename := nrename + 1
+//@   callee getTmpPath()
+//@     pure
